@@ -1,0 +1,17 @@
+//go:build verif
+
+// Machine-checked contracts for this package (comment-only; compiled only under the
+// build tag `verif`, where it still contains no code). Checked by /verif/govc.
+package keeper
+
+// ---- C15: supply ---------------------------------------------------------------------------------
+// The burner destroys what has been sent to the zero address. burnCoins forwards its argument.
+//@ func (Keeper).burnCoins
+//@ forall d Str
+//@ supply-wrapper
+//@ burns C15/forwards-argument: amt(coins, d) != 0
+
+//@ func (Keeper).burnTokensForDenom
+//@ forall d Str
+//@ burns C15/burns-only-what-was-taken-from-the-zero-address: amt(balance, d) != 0
+//@ burns C15/burns-only-the-native-token: d == ptypes.Elys
